@@ -57,7 +57,7 @@ def worker(i):
         t0=time.time()
         to='20m' if pkgs(m['file'])=='.' else '8m'
         try:
-            r=subprocess.run(f"go test -vet=off -count=1 -timeout {to} {pkgs(m['file'])}",shell=True,cwd=wt,env=env,capture_output=True,text=True,timeout=1500)
+            r=subprocess.run(f"go test -vet=off -count=1 -timeout {to} {pkgs(m['file'])}",shell=True,cwd=wt,env=env,capture_output=True,text=True,errors="replace",timeout=1500)
             rc=r.returncode; tail=(r.stdout+r.stderr)[-400:]
         except subprocess.TimeoutExpired:
             rc=-1; tail='timeout'
